@@ -8,11 +8,32 @@
   The clause theorems below read the statement's sentences off that reference meaning.
 -/
 import GV.Eval.RefStmtThm
+import GV.Eval.FactsParams
 namespace GV.Props.C02
 open GV.Eval
 
 theorem C02_rule_refines (P : Params) (env : Env) (body : RBlock) (hw : body.WF = true) :
     ruleExecute P env (lowerB body) = denoteRule P env body := rule_refines P env body hw
+
+/-- **End to end, for the code as it is now** (recover sites and loop bound regenerated from the
+    source): executing a rule — the interpreter with the code's own primitives, on the AST the
+    listener builds — ends in the same environment (host state, observer trace), with the same
+    outcome, return flag and value as the reference semantics with the reference primitives, for
+    every well-formed program with well-kinded literals and every well-kinded environment. -/
+theorem C02_end_to_end (body : RBlock) (hw : body.WF = true) (hl : body.LitWK = true) (env : Env) (he : EnvWK env) :
+    (ruleExecute factsParams env (lowerB body)).env = (denoteRule (refParamsOf factsParams) env body).env ∧
+    (ruleExecute factsParams env (lowerB body)).outcome = (denoteRule (refParamsOf factsParams) env body).outcome ∧
+    (ruleExecute factsParams env (lowerB body)).flag = (denoteRule (refParamsOf factsParams) env body).flag ∧
+    (ruleExecute factsParams env (lowerB body)).val = (denoteRule (refParamsOf factsParams) env body).val :=
+  facts_end_to_end body hw hl env he
+
+/-- the invariant behind it: statements keep the environment well kinded -/
+theorem C02_env_stays_well_kinded (P Q : Params) (hr : Rel P Q) (hrec : Recovers P) (b : RBlock) (hw : b.WF = true)
+    (hl : b.LitWK = true) (env : Env) (he : EnvWK env) : EnvWK (denoteB Q env b).2 :=
+  (denoteB_sim P Q hr hrec b hw hl env he).2
+
+/-- the executable check of well-kindedness the correspondence driver applies to every case is sound -/
+theorem C02_wk_check_sound (e : Env) (h : e.wkb = true) : EnvWK e := env_wkb_sound e h
 
 /-- Statements run in source order: the second statement starts in the state the first left. -/
 theorem C02_source_order (P : Params) (env e1 : Env) (s : RS) (rest : RSList)
